@@ -15,7 +15,7 @@ ZSwu      == P -- 11                         \* the RFC 9380 non-square Z = -11 
 FlagOf(b) == IF b THEN 1 ELSE 0
 
 Classes == {"life_step", "life_zero", "life_reject", "life_sqrt_none", "canon_repr", "sum_window", "diff_borrow", "mont_window", "mont_sqr_window", "decode_ge_p", "decode_lt_p",
-            "canon_reject", "canon_accept", "wide_len_odd", "wide_ge_p", "wide_panic", "sqrt_residue",
+            "canon_reject", "canon_accept", "wide_len_odd", "wide_ge_p", "wide_fold_carry", "wide_panic", "sqrt_residue",
             "sqrt_nonresidue", "sqrt_zero", "ratio_v0", "ratio_square", "ratio_nonsquare", "inv_zero",
             "alias_all", "alias_recv", "pow2k_panic", "csel_nonbool_ctrl", "near_p", "near_zero"}
 
@@ -90,7 +90,9 @@ Verdict(ev) ==
          << /\ HexLen(ev["in"]) = ev.len
             /\ IF ev.len \in W..(2 * W) THEN ~ev.panic /\ Is(FWideReduce(H(ev["in"])), ev.out) ELSE ev.panic,
             (IF ev.len \notin W..(2 * W) THEN {"wide_panic"} ELSE
-               (IF ev.len % 8 # 0 THEN {"wide_len_odd"} ELSE {}) \cup (IF P \preceq H(ev["in"]) THEN {"wide_ge_p"} ELSE {})) >>
+               (IF ev.len % 8 # 0 THEN {"wide_len_odd"} ELSE {}) \cup (IF P \preceq H(ev["in"]) THEN {"wide_ge_p"} ELSE {})
+               \cup (LET v == H(ev["in"])  hi == v // TwoW  f == ((hi ** (TwoW -- P)) ++ (v %% TwoW)) %% TwoW IN      \* hi * c + lo next to a multiple of 2^(8W)
+                     IF ~BigEq(hi, 0) /\ ((f \prec Pow2(34)) \/ ((TwoW -- f) \prec Pow2(34))) THEN {"wide_fold_carry"} ELSE {})) >>
     [] ev.ev = "fe.SetShort" ->
          << /\ HexLen(ev["in"]) = ev.len
             /\ IF ev.len < W THEN ~ev.panic /\ Is(H(ev["in"]), ev.out) ELSE ev.panic, {} >>
